@@ -3,7 +3,7 @@
 From stdpp Require Import gmap.
 From RecordUpdate Require Import RecordSet.
 From Coq Require Import ZArith NArith List Bool Strings.Byte Strings.String.
-Require Import Regen.Base.Bytes Regen.Base.Calendar Regen.Dec.Dec Regen.Ids.Ids.
+Require Import Regen.Base.Bytes Regen.Base.Calendar Regen.Dec.Dec Regen.Ids.Ids Regen.Generated.LedgerConsts.
 Require Import Regen.Ledger.Types Regen.Ledger.Msgs Regen.Ledger.Orm Regen.Ledger.BaseMsgs.
 Import ListNotations RecordSetNotations.
 Local Open Scope Z_scope.
@@ -261,7 +261,7 @@ Definition h_gov_send_from_fee_pool (e : env) (s : state) (authority recipient :
 (* PruneSellOrders (BeginBlock)                                        *)
 (* ------------------------------------------------------------------ *)
 
-Definition prune_lower : ts := {| secs := 0; nanos := 1 |}.     (* time.Unix(0, 1) *)
+Definition prune_lower : ts := {| secs := LedgerConsts.prune_lower_secs; nanos := LedgerConsts.prune_lower_nanos |}.     (* time.Unix(0, 1) *)
 
 Definition ts_leb (a c : ts) : bool := match ts_compare a c with Gt => false | _ => true end.
 
